@@ -357,6 +357,19 @@ class Inliner:
       m = self.methods.get(cls.name, {}).get(f.attr)
       if m is not None and self.is_new('%s.%s.%s' % (self.modname, cls.name, f.attr)):
         return m, f.value
+    # a new method called on a local that was bound, once, to a fresh instance of one of the module's classes
+    if isinstance(f, ast.Attribute) and isinstance(f.value, ast.Name) and self._owner is not None and f.value.id not in ('self', 'cls'):
+      x = f.value.id
+      stores = [n for n in _own_walk(self._owner) if isinstance(n, ast.Name) and n.id == x and isinstance(n.ctx, ast.Store)]
+      if len(stores) == 1 and x not in {a.arg for a in ast.walk(self._owner.args) if isinstance(a, ast.arg)}:
+        for st in _own_walk(self._owner):
+          if isinstance(st, ast.Assign) and len(st.targets) == 1 and st.targets[0] is stores[0] and isinstance(st.value, ast.Call) \
+              and isinstance(st.value.func, ast.Name) and st.value.func.id in self.methods:
+            cname = st.value.func.id
+            m = self.methods[cname].get(f.attr)
+            if m is not None and self.is_new('%s.%s.%s' % (self.modname, cname, f.attr)) and \
+                not any(ast.unparse(d) in ('staticmethod', 'classmethod', 'property') for d in m.decorator_list):
+              return m, f.value
     return None, None
 
   def _nested_helper_call(self, st, cls, owner_fn):
@@ -899,10 +912,16 @@ def _rewrite_tuple_assign(body_list):
         i += len(new)
         continue
     if isinstance(st, ast.Assign) and len(st.targets) == 1 and isinstance(st.targets[0], ast.Name) and isinstance(st.value, ast.Name) \
-        and st.targets[0].id == st.value.id and len(body_list) > 1:
-      del body_list[i]
+        and st.targets[0].id == st.value.id:
+      if len(body_list) > 1:
+        del body_list[i]
+      else:
+        body_list[i] = ast.copy_location(ast.Pass(), st)
       changed += 1
       continue
+    if isinstance(st, ast.If) and len(st.orelse) == 1 and isinstance(st.orelse[0], ast.Pass):
+      st.orelse = []
+      changed += 1
     i += 1
   return changed
 
@@ -2028,6 +2047,33 @@ class _ExprForms(ast.NodeTransformer):
   def visit_Compare(self, n):
     self.generic_visit(n)
     return self._compare(n)
+
+  def _truth(self, e):
+    """In a position where only truthiness is used, bool(X) is X."""
+    while isinstance(e, ast.Call) and isinstance(e.func, ast.Name) and e.func.id == 'bool' and len(e.args) == 1 and not e.keywords:
+      e = e.args[0]
+      self.n += 1
+    if isinstance(e, ast.UnaryOp) and isinstance(e.op, ast.Not):
+      e.operand = self._truth(e.operand)
+    elif isinstance(e, ast.BoolOp):
+      # the value of `a and b` used only for its truth: each operand only for its truth
+      e.values = [self._truth(v) for v in e.values]
+    return e
+
+  def visit_If(self, n):
+    self.generic_visit(n)
+    n.test = self._truth(n.test)
+    return n
+
+  def visit_While(self, n):
+    self.generic_visit(n)
+    n.test = self._truth(n.test)
+    return n
+
+  def visit_IfExp(self, n):
+    self.generic_visit(n)
+    n.test = self._truth(n.test)
+    return n
 
   def visit_JoinedStr(self, n):
     # f'{a}/{b}'  ->  '{}/{}'.format(a, b)      (plain fields only: both spell format(x, ''))
@@ -3866,6 +3912,106 @@ def restore_attribute_names(tree, modname):
   return count
 
 
+_PKG_METHODS = {}      # package-wide: new method name -> (self name, params, expression); set by scan_package_methods
+
+
+def _expression_body(fn):
+  """(params, expression) when `fn` only names a pure expression (straight-line pure temporaries and a return), else None."""
+  a = fn.args
+  if a.vararg or a.kwarg or a.kwonlyargs or a.posonlyargs or a.defaults:
+    return None
+  body = list(fn.body)
+  if body and isinstance(body[0], ast.Expr) and isinstance(body[0].value, ast.Constant) and isinstance(body[0].value.value, str):
+    body = body[1:]
+  if not body or not isinstance(body[-1], ast.Return) or body[-1].value is None or not _pure(body[-1].value):
+    return None
+  temps = {}
+  for st in body[:-1]:
+    if isinstance(st, ast.Assign) and len(st.targets) == 1 and isinstance(st.targets[0], ast.Name) and st.targets[0].id not in temps and _pure(st.value):
+      temps[st.targets[0].id] = st.value
+    else:
+      return None
+  params = [x.arg for x in a.args]
+  if set(params) & set(temps):
+    return None
+  expr = copy.deepcopy(body[-1].value)
+  for t in reversed(list(temps)):
+    expr = _Subst({t: temps[t]}, {}).visit(expr)
+  if any(isinstance(x, ast.Name) and x.id in temps for x in ast.walk(expr)):
+    return None
+  return params, expr
+
+
+def scan_package_methods(trees):
+  """Methods, anywhere in the package, that the reference tree does not have under any name use (`statement.binds_directly()`),
+  are defined exactly once, take only `self`-like receivers and name a pure expression of their parameters: calls of them
+  through a plain name are substituted in every module."""
+  global _PKG_METHODS
+  _PKG_METHODS = {}
+  vocab = _load_vocab()
+  if vocab is None:
+    return
+  seen = {}
+  for tree in trees:
+    for cls in tree.body:
+      if isinstance(cls, ast.ClassDef):
+        for m in cls.body:
+          if isinstance(m, ast.FunctionDef):
+            seen.setdefault(m.name, []).append(m)
+    for n in ast.walk(tree):
+      if isinstance(n, ast.FunctionDef) and not any(n in c.body for c in tree.body if isinstance(c, ast.ClassDef)):
+        seen.setdefault(n.name, []).append(None)
+  for name, defs in seen.items():
+    if name in vocab or len(defs) != 1 or defs[0] is None or name.startswith('__'):
+      continue
+    m = defs[0]
+    if m.decorator_list or not m.args.args:
+      continue
+    eb = _expression_body(m)
+    if eb is None:
+      continue
+    params, expr = eb
+    free = {x.id for x in ast.walk(expr) if isinstance(x, ast.Name)} - set(params)
+    comp_bound = {x.id for c in ast.walk(expr) if isinstance(c, ast.comprehension) for x in ast.walk(c.target) if isinstance(x, ast.Name)}
+    if (free - comp_bound) - {'bool', 'len', 'str', 'int', 'tuple', 'list', 'isinstance', 'any', 'all', 'sorted', 'min', 'max'}:
+      continue      # it reads module names: only meaningful in its own module
+    _PKG_METHODS[name] = (params[0], params[1:], expr)
+
+
+def inline_package_methods(tree, modname):
+  if not _PKG_METHODS:
+    return 0
+  parents = {}
+  for n in ast.walk(tree):
+    for c in ast.iter_child_nodes(n):
+      parents[id(c)] = n
+  count = 0
+  for n in list(ast.walk(tree)):
+    if isinstance(n, ast.Call) and isinstance(n.func, ast.Attribute) and n.func.attr in _PKG_METHODS and isinstance(n.func.value, ast.Name) \
+        and not n.keywords and not any(isinstance(a, ast.Starred) for a in n.args):
+      selfn, params, expr = _PKG_METHODS[n.func.attr]
+      if len(n.args) != len(params) or not all(isinstance(a, (ast.Name, ast.Constant, ast.Attribute)) for a in n.args):
+        continue
+      m = {selfn: n.func.value}
+      m.update(dict(zip(params, n.args)))
+      rep = _Subst(m, {}).visit(copy.deepcopy(expr))
+      ast.copy_location(rep, n)
+      par = parents.get(id(n))
+      if par is None:
+        continue
+      for fld, v in ast.iter_fields(par):
+        if v is n:
+          setattr(par, fld, rep)
+        elif isinstance(v, list):
+          for j, x in enumerate(v):
+            if x is n:
+              v[j] = rep
+      count += 1
+  if count:
+    ast.fix_missing_locations(tree)
+  return count
+
+
 def lifted_candidates(tree, modname, table=None):
   """Names of new module-level functions that look like a reference closure that is missing now."""
   table = table if table is not None else _load_table()
@@ -3997,6 +4143,7 @@ def normalize(tree, modname):
   a += call_spelling(tree, modname)
   a += restore_function_names(tree, modname)
   a += collect_generators(tree, modname)
+  a += inline_package_methods(tree, modname)
   a += inline_expression_helpers(tree, modname)
   a += inline_generators(tree, modname)
   a += unlift(tree, modname)
